@@ -18,6 +18,12 @@ Trace == ndJsonDeserialize("calls.ndjson")
 VARIABLES l, bad, specbad
 vars == <<l, bad, specbad>>
 
+\* Result rows of a select against the rows real SQLite returns for the same query.  Values must
+\* have the same storage class and be equal; an integral REAL may surface as an integer (documented).
+ValMatch(x, y) == ClassRank(x) = ClassRank(y) /\ Cmp(x, y, "binary") = 0
+RowMatch(a, b) == Len(a) = Len(b) /\ \A j \in 1..Len(a) : ValMatch(a[j], b[j])
+RowsMatch(got, want) == Len(got) = Len(want) /\ \A i \in 1..Len(got) : RowMatch(got[i], want[i])
+
 Expected(e) ==
     CASE e.op = "cmp"    -> Cmp(e.a, e.b, e.coll)
       [] e.op = "equals" -> KeyEquals(e.key, e.rec)
@@ -26,6 +32,7 @@ Expected(e) ==
       [] e.op = "varint" -> VarintDecode(e.bytes)
       [] e.op = "record" -> RecordDecode(e.bytes)
       [] e.op = "ovfl"   -> OverflowPages(e.u, e.p, e.idx)
+      [] e.op = "rows"   -> RowsMatch(e.got, e.want)
 
 HasSq(e) == "sq" \in DOMAIN e
 
